@@ -789,6 +789,29 @@ func RunC07(tier string) int {
 			}
 		}
 		rep.Extra["verdict_stability"] = map[string]any{"seeds_with_multi_argument_query": len(multi), "repeats_each": repeatCount}
+		// E4: the same seeds with the iteration order of every map the library ranges
+		// over under the harness's control (all orders of each executed statement)
+		margs := make([]any, len(multi))
+		for k, i := range multi {
+			margs[k] = map[string]any{"parser": "ParseSource", "s": seeds[i]}
+		}
+		st := &mapOrdStats{}
+		exploreMapOrders(0, "addrpolicy", margs, 2, func(_ int, raw json.RawMessage) string {
+			// the verdict, not the wording of a rejection (which of several reasons is named first may vary)
+			var o struct {
+				Rejected string `json:"rejected"`
+			}
+			if json.Unmarshal(raw, &o) == nil && o.Rejected != "" {
+				return "rejected"
+			}
+			return string(raw)
+		},
+			func(k int, choices []int, base, got string, arg MapOrdArg) {
+				rep.Violation("sourceaddrs.ParseSource/verdict-depends-on-map-iteration-order", fmt.Sprintf("ParseSource(%q): canonical order gives %s, map orders %v give %s", seeds[multi[k]], base, choices, got), "mapord", arg)
+			}, st)
+		rep.Evaluations += st.Runs
+		rep.Extra["map_orders"] = st.summary()
+		fmt.Printf("  map-order part: seeds=%d runs=%d choice points=%d differing=%d\n", st.Tasks, st.Runs, st.Points, st.Differing)
 	}
 	// constructor product
 	types := []string{"git", "https", "http", "GIT", "hg", "", "ssh"}
